@@ -6,9 +6,15 @@ package runner
 import (
 	"fmt"
 	"sort"
+	"strings"
 
 	"github.com/lni/dragonboat/v4/verifsim/choice"
 )
+
+// PreRun functions are called with the run's aux seed before every run of
+// every scenario: they reset the process wide sources of nondeterminism of the
+// code under test (random sources, clocks that end up in data).
+var PreRun []func(aux uint64)
 
 // Violation is one oracle firing.
 type Violation struct {
@@ -17,7 +23,21 @@ type Violation struct {
 	Detail   string `json:"detail"`
 }
 
-func (v Violation) Class() string { return v.Property + "/" + v.Oracle }
+func (v Violation) Class() string {
+	// an oracle may tag the detail with the cause it diagnosed ("cause=<tag>:");
+	// shrinking must not drift from one cause to another (a known finding has a
+	// cause tag, an unexplained failure of the same oracle has none)
+	c := v.Property + "/" + v.Oracle
+	if i := strings.Index(v.Detail, "cause="); i >= 0 {
+		j := i + len("cause=")
+		k := j
+		for k < len(v.Detail) && (v.Detail[k] == '-' || v.Detail[k] >= 'a' && v.Detail[k] <= 'z' || v.Detail[k] >= '0' && v.Detail[k] <= '9') {
+			k++
+		}
+		c += "/" + v.Detail[j:k]
+	}
+	return c
+}
 
 // Result is what one simulated run reports.
 type Result struct {
